@@ -275,7 +275,8 @@ def oracle_roundtrip(case, obs):
     o2["nodes"] = [[r[0]] + r[1:] for r in obs["orig"]["nodes"]]
     p2 = dict(obs["parsed"])
     out += [(k.replace("reload", "parse"), m) for k, m in compare_tables_ordered(o2, p2)]
-    return out
+    # one key per case (the first), so that ./check groups equal failures into one replay
+    return out[:1]
 
 
 def compare_tables_ordered(a, b):
@@ -303,7 +304,7 @@ class Roundtrip(Family):
     prelude = "From Coq Require Import String.\nFrom TskVerif Require Import Base.Common C17.Model.\nOpen Scope Z_scope."
 
     def generate(self, rng, tier):
-        n = 700 if tier == "quick" else 20000
+        n = 700 if tier == "quick" else 6000
         for _ in range(n):
             yield gen_roundtrip(rng)
 
@@ -519,7 +520,7 @@ class Parsers(Family):
         for kind in TABLES:
             for _ in range(6):
                 yield gen_parser_case(rng, kind, minimal=True)
-        n = 1500 if tier == "quick" else 40000
+        n = 1500 if tier == "quick" else 20000
         for _ in range(n):
             yield gen_parser_case(rng)
 
